@@ -354,8 +354,9 @@ type VLoop struct {
 	Crash           string
 	Truth           []byte // ground-truth content (concatenated files) for judging received blocks
 	PL              int64
-	TruthInfo       []byte // the info dictionary behind a magnet link
-	BarrierTimeouts int    // barriers that gave up waiting (reported in the case note)
+	TruthInfo       []byte          // the info dictionary behind a magnet link
+	BarrierTimeouts int             // barriers that gave up waiting (reported in the case note)
+	parkC           chan chan error // run() is blocked sending on this channel until Close
 }
 
 type VLoopOpts struct {
@@ -532,11 +533,13 @@ func OpenVLoop(db []byte, sto *VStorage, tune func(*Config)) (*VLoop, error) {
 // hijack parks the torrent's own run() goroutine and takes over its channels.
 func (v *VLoop) hijack() {
 	t := v.T
-	// make sure run() is inside its select (round trip), then let it re-enter the select
-	req := statsRequest{Response: make(chan Stats, 1)}
-	t.statsCommandC <- req
-	<-req.Response
-	time.Sleep(5 * time.Millisecond)
+	// Park run() where it cannot look at any channel: it takes a notify-error command and then blocks in
+	// the handler, sending the answer on a channel nobody receives from until Close.  (Waiting for it to
+	// re-enter its select and then swapping the channels under it was a race: a tick of one of its
+	// tickers, or a slow scheduler, let it come round again and pick up the new channels, after which it
+	// handled events behind the harness's back.)
+	v.parkC = make(chan chan error)
+	t.notifyErrorCommandC <- notifyErrorCommand{errCC: v.parkC}
 	t.seedDurationTicker.Stop()
 	t.unchokeTicker.Stop()
 	t.startCommandC = make(chan struct{})
@@ -578,6 +581,14 @@ func (v *VLoop) Close() {
 	}
 	for _, p := range v.Peers {
 		p.Conn.Close()
+	}
+	// let run() out of the handler it was parked in: it goes back to its select and sees closeC
+	if v.parkC != nil {
+		select {
+		case <-v.parkC:
+		case <-time.After(2 * time.Second):
+		}
+		v.parkC = nil
 	}
 	done := make(chan struct{})
 	go func() { v.S.Close(); close(done) }()
